@@ -43,6 +43,14 @@ def _main():
         return 2
     try:
         return runner.main()
+    except SystemExit:
+        raise
+    except BaseException:  # anything escaping the runner is a harness problem, never a verdict
+        import traceback
+
+        traceback.print_exc()
+        print("HARNESS-ERROR uncaught exception in the runner (see traceback)")
+        return 2
     finally:
         import shutil
 
